@@ -38,7 +38,10 @@ macro_rules! harnesses {
                 #[kani::proof]
                 $(#[$attr])*
                 pub fn proof() {
-                    body(&mut $crate::gen::K)
+                    body(&mut $crate::gen::K);
+                    // reachability witness at the END of the harness: if a verifier-internal assumption (e.g. Kani's treatment of float
+                    // SIMD arithmetic) cuts every execution short, the obligations above pass vacuously; the driver requires this cover
+                    kani::cover!(true, "VACUITY-GUARD");
                 }
             }
         )*
@@ -62,13 +65,18 @@ macro_rules! harnesses {
 /// A named obligation inside a harness. The message is what the driver keys on.
 #[macro_export]
 macro_rules! ob {
-    ($name:literal, $cond:expr) => {{
-        // reachability witness AT the obligation: an obligation that no execution reaches (e.g. behind a verifier-internal
-        // assumption) would pass vacuously; the driver requires every cover to be SATISFIED
-        #[cfg(kani)]
-        kani::cover!(true, "VACUITY-GUARD");
+    ($name:literal, $cond:expr) => {
         assert!($cond, concat!("OB:", $name))
-    }};
+    };
+}
+
+/// An obligation inside a loop that legitimately runs zero times for some instantiations (e.g. "other fields untouched" for a
+/// type without other fields): same assertion, no reachability witness.
+#[macro_export]
+macro_rules! obq {
+    ($name:literal, $cond:expr) => {
+        assert!($cond, concat!("OB:", $name))
+    };
 }
 
 /// Reachability witness at the call site (distinct source location per cover, so Kani reports each
